@@ -100,7 +100,7 @@ pub fn c15(ctx: &mut Ctx, tier: &str, r: &mut Rng, js: &[Value], _reqs: &[String
     }
     // other parameter sets and places: every method and policy, ranges that start in the season
     // without twilight at 46..70 degrees and run out of it (per-day independence across blocks)
-    let n_at = if tier == "thorough" { 600 } else { 40 };
+    let n_at = sz!(tier, 40, 600);
     for _ in 0..n_at {
         let (c, days) = gen_range_case(r, 200);
         let w = r.pick(&[2usize, 3, 4, 8, 16]);
@@ -109,11 +109,23 @@ pub fn c15(ctx: &mut Ctx, tier: &str, r: &mut Rng, js: &[Value], _reqs: &[String
             return;
         }
     }
+    // ranges across the Gregorian reform and other dates where consecutive calendar days are not one
+    // Julian Day apart in the library's reckoning: the blocks cut such a range at other places than the
+    // sequential function steps through it
+    for (y, m, d, days) in [(1582, 10, 1, 40i64), (1582, 9, 1, 90), (1500, 2, 1, 60), (1, 1, 1, 50)] {
+        let c = DayCase { p: Params::new(Method::Mwl), l: loc(41.9, 12.5, 20., 1.), rd: rd_of(y, m, d), w: None };
+        for w in [2usize, 3, 7] {
+            if !one_at(ctx, w, days, 0, 0, c.rd, Some(&c)) {
+                ctx.finish(json!({"watchdog": "fired"}));
+                return;
+            }
+        }
+    }
     // random configurations with perturbation
-    let n = if tier == "thorough" { 1500 } else { 120 };
+    let n = sz!(tier, 120, 1500);
     for i in 0..n {
         let w = r.int(1, 64) as usize;
-        let days = if r.chance(0.5) { r.int(0, 3 * w as i64) } else { r.int(0, if tier == "thorough" { 6000 } else { 800 }) };
+        let days = if r.chance(0.5) { r.int(0, 3 * w as i64) } else { r.int(0, sz!(tier, 800, 6000)) };
         let c = (w, days, r.pick(&[0usize, 0, 1, 2, 5, 30, 365]), r.next() | 1);
         if i == 0 {
             ctx.sample(json!({"workers": c.0, "days": c.1, "threshold": c.2, "perturb_seed": c.3}));
